@@ -40,7 +40,7 @@ ASSUMPTIONS = [
     'state S = composite.initial_state(); the variant without an explicit '
     'state is known finding K5',
 ]
-BOUNDS = {'quick': {'merge_len': 3}, 'thorough': {'merge_len': 4}}
+BOUNDS = {'quick': {'merge_len': 3}, 'thorough': {'merge_len': 5}}
 
 VAR = {'_default': 0, '_emit': True}
 
